@@ -2,6 +2,8 @@ import Verif.Spec.SvgPath
 import Verif.Spec.SvgHazard
 import Verif.Model.SvgPath
 import Verif.Proofs.SvgGeom
+import Verif.Proofs.SvgLex
+import Verif.Proofs.SvgParse
 /-!
 # C05 — SVG path minification preserves the absolute segments
 
@@ -10,6 +12,57 @@ guards: `Verif.Spec.SvgHazard`; model of `/repo/svg/pathdata.go`: `Verif.Model.S
 -/
 namespace Verif.Props.C05
 open Verif.Spec.SvgPath Verif.Spec.SvgHazard Verif.Model.SvgPath Verif.Proofs.SvgGeom
+open Verif.Proofs.SvgLex Verif.Proofs.SvgParse
+
+/-! ## path_lex_roundtrip: separator elision never merges or splits tokens
+
+`copyNumber` / `copyFlag` / the command letters form a state machine (`PState`: last letter, `prevDigit`,
+`prevDigitIsInt`, `prevFlag`).  The theorems quantify over **every** item sequence and every start
+state; the only hypotheses are the shape contract of the printed numbers (`goodNum`, checked on every
+output of the real `minify.Number` by the harness) and that flags are printed exactly at the arc flag
+positions.  `itemsToks` / `groupsToks` are the tokens with the spellings the printer chooses
+(`.0` for `0` after a non-integer, `e2` for a trailing `00` of a plain integer). -/
+
+/-- item level, any printer state `st`, any lexer context `(cur, k)`, any continuation `rest` that
+    cannot extend the last number: the lexer consumes exactly the printed items and yields their tokens -/
+theorem path_lex_roundtrip_items (items : List PItem) (st : PState) (cur : Char) (k : Nat) (rest : List Char) (f : Nat)
+    (hgood : ∀ s, PItem.num s ∈ items → goodNum s = true) (hpos : posOk cur k items = true)
+    (hinv : st.prevDigit = true → st.prevFlag = false)
+    (hstop : (emitItems st items).1.prevDigit = true → Stop (emitItems st items).1.prevDigitIsInt rest)
+    (hf : ((emitItems st items).2 ++ rest).length < f) :
+    ∃ f', rest.length < f' ∧
+      lexGo f cur k ((emitItems st items).2 ++ rest) =
+        (lexGo f' cur (k + items.length) rest).map (itemsToks st items ++ ·) :=
+  lex_items items st cur k rest f hgood hpos hinv hstop hf
+
+/-- whole outputs: every list of well-formed groups (arity, flags at arc positions, shaped numbers,
+    moveto always printed with its letter) lexes back to exactly its tokens -/
+theorem path_lex_roundtrip (gs : List OutGroup) (h : WfGroups gs) :
+    lexPath (renderGroups gs) = some (groupsToks {} gs) :=
+  lex_groups gs {} '\x00' 0 _ h ⟨rfl, by intro h; exact absurd h (by decide), by intro h; exact absurd h (by decide)⟩
+    (Nat.lt_succ_self _)
+
+/-- … and parses back to exactly the intended commands: implicit repetition and the implicit
+    lineto after moveto are only used where the omitted letter is the implied one -/
+theorem path_parse_roundtrip (gs : List OutGroup) (h : WfGroups gs) :
+    parse (renderGroups gs) = some (groupsCmds {} gs) := by
+  unfold parse
+  rw [path_lex_roundtrip gs h]
+  exact parse_groups gs {} none _ h (by intro k rel h; simp at h) (Nat.lt_succ_self _)
+
+/-- non-vacuity: a group list using compact flags, `.0`, `e2`, omitted letters -/
+example : WfGroups [⟨true, .M, false, [.num "10".toList, .num "-.5".toList]⟩,
+      ⟨false, .L, false, [.num ".5".toList, .num "0".toList]⟩,
+      ⟨false, .A, true, [.num "100".toList, .num "1".toList, .num "0".toList, .flag false, .flag true, .num "1".toList, .num "1e3".toList]⟩] := by
+  intro g hg
+  simp only [List.mem_cons, List.not_mem_nil, or_false] at hg
+  rcases hg with rfl | rfl | rfl <;>
+    exact ⟨by decide, by intro s hs; simp only [List.mem_cons, PItem.num.injEq, List.not_mem_nil, or_false, reduceCtorEq, false_or] at hs; rcases hs with rfl | rfl | rfl | rfl | rfl <;> decide, by decide, by decide⟩
+
+example : renderGroups [⟨true, .M, false, [.num "10".toList, .num "-.5".toList]⟩,
+      ⟨false, .L, false, [.num ".5".toList, .num "0".toList]⟩,
+      ⟨false, .A, true, [.num "100".toList, .num "1".toList, .num "0".toList, .flag false, .flag true, .num "1".toList, .num "1e3".toList]⟩]
+    = "M10-.5.5.0a1e2 1 0 011 1e3".toList := by decide
 
 /-! ## copy_geometry: each rewrite of `copyInstruction` denotes the same absolute segment(s)
 
